@@ -44,6 +44,7 @@ type OCSPParties struct {
 	Delegated    *gen.Cert // issued by Issuer with EKU OCSPSigning
 	NoEKU        *gen.Cert // issued by Issuer without any EKU
 	ClientEKU    *gen.Cert // issued by Issuer with EKU clientAuth
+	AnyEKU       *gen.Cert // issued by Issuer with EKU clientAuth + anyExtendedKeyUsage (not authorised for OCSP signing: RFC 6960 4.2.2.2 asks for id-kp-OCSPSigning itself)
 	DelegatedBig *gen.Cert // issuer-signed, EKU OCSPSigning, RSA-3072 key and a long subject: responses exceed 3 KiB
 	Mimic        *gen.Cert // self-signed stranger that copies the issuer's subject and subject key identifier
 	Stranger     *gen.Cert // self-signed, unrelated
@@ -58,6 +59,7 @@ func NewOCSPParties(name string, issuer, leaf *gen.Cert) *OCSPParties {
 	p.Mimic = gen.Issue(gen.CertSpec{Key: "p224", Subject: issuer.Spec.Subject, SerialHex: issuer.Spec.SerialHex, IsCA: true, SKIHex: hex.EncodeToString(issuer.Cert.SubjectKeyId)}, nil)
 	p.NoEKU = gen.Issue(gen.CertSpec{Key: "p256d", Subject: gen.CN(name + " noeku"), SerialHex: "7002", NoEKU: true, KeyUsage: "ds"}, issuer)
 	p.ClientEKU = gen.Issue(gen.CertSpec{Key: "p256d", Subject: gen.CN(name + " other client"), SerialHex: "7003", KeyUsage: "ds"}, issuer)
+	p.AnyEKU = gen.Issue(gen.CertSpec{Key: "p256d", Subject: gen.CN(name + " any usage"), SerialHex: "7006", KeyUsage: "ds", AnyEKU: true}, issuer)
 	p.Stranger = gen.Issue(gen.CertSpec{Key: "p521", Subject: gen.CN(name + " stranger"), SerialHex: "7004", IsCA: true}, nil)
 	p.Sibling = gen.Issue(gen.CertSpec{Key: "p256e", Subject: issuer.Spec.Subject, SerialHex: issuer.Spec.SerialHex, IsCA: true}, nil)
 	return p
@@ -141,6 +143,8 @@ func (p *OCSPParties) Build(a OCSPAnswer, serial *big.Int) (body []byte, status 
 		responder, tpl.Certificate = p.NoEKU, p.NoEKU.Cert
 	case "delegated-clientauth":
 		responder, tpl.Certificate = p.ClientEKU, p.ClientEKU.Cert
+	case "delegated-anyeku":
+		responder, tpl.Certificate = p.AnyEKU, p.AnyEKU.Cert
 	case "client":
 		responder, tpl.Certificate = p.Leaf, p.Leaf.Cert
 	case "client-bare": // signed with the client's own key, no embedded certificate
